@@ -256,12 +256,17 @@ def check_copies(prog, rep, tier):
             deep = nm == "__deepcopy__"
             # the constructed object
             ctor = None
+            # local aliases of the object's own class: K = type(self) / self.__class__
+            cls_alias = {"cls"}
+            for n in walk_no_nested(f.node):
+                if isinstance(n, ast.Assign) and len(n.targets) == 1 and isinstance(n.targets[0], ast.Name) and "".join(dump(n.value).split()) in ("type(self)", "self.__class__"):
+                    cls_alias.add(n.targets[0].id)
             for n in walk_no_nested(f.node):
                 if isinstance(n, ast.Call):
                     fn = n.func
                     if (isinstance(fn, ast.Attribute) and fn.attr == "__init__" and isinstance(fn.value, ast.Name) and fn.value.id != "self") or \
                        (isinstance(fn, ast.Attribute) and fn.attr == "__class__" and field_of(fn) is not None) or \
-                       (isinstance(fn, ast.Name) and fn.id == "cls") or \
+                       (isinstance(fn, ast.Name) and fn.id in cls_alias) or \
                        (isinstance(fn, ast.Name) and isinstance(prog.resolve_name(f.module, fn.id), ClassInfo)
                             and prog.resolve_name(f.module, fn.id) is c):
                         ctor = n
